@@ -19,17 +19,17 @@ func init() {
 	}
 }
 
-func be32(n int) []byte { b := make([]byte, 4); binary.BigEndian.PutUint32(b, uint32(n)); return b }
+func c19be32(n int) []byte { b := make([]byte, 4); binary.BigEndian.PutUint32(b, uint32(n)); return b }
 
 // list<list<...list<i32>>> nested d levels, innermost empty
 func deepList(d int) []byte {
 	var b []byte
 	for i := 0; i < d-1; i++ {
 		b = append(b, byte(thrift.LIST))
-		b = append(b, be32(1)...)
+		b = append(b, c19be32(1)...)
 	}
 	b = append(b, byte(thrift.I32))
-	b = append(b, be32(0)...)
+	b = append(b, c19be32(0)...)
 	return b
 }
 
@@ -50,11 +50,11 @@ func deepMap(d int) []byte {
 	var b []byte
 	for i := 0; i < d-1; i++ {
 		b = append(b, byte(thrift.I32), byte(thrift.MAP))
-		b = append(b, be32(1)...)
-		b = append(b, be32(i)...)
+		b = append(b, c19be32(1)...)
+		b = append(b, c19be32(i)...)
 	}
 	b = append(b, byte(thrift.I32), byte(thrift.I32))
-	b = append(b, be32(0)...)
+	b = append(b, c19be32(0)...)
 	return b
 }
 
@@ -122,12 +122,12 @@ func genC19Deep(r *rng, n int) {
 	}
 	// list of many empty structs / lists
 	{
-		b := append([]byte{byte(thrift.STRUCT)}, be32(2500)...)
+		b := append([]byte{byte(thrift.STRUCT)}, c19be32(2500)...)
 		for i := 0; i < 2500; i++ {
 			b = append(b, 0)
 		}
 		emitSkip(thrift.LIST, b)
-		c := append([]byte{byte(thrift.LIST)}, be32(1500)...)
+		c := append([]byte{byte(thrift.LIST)}, c19be32(1500)...)
 		for i := 0; i < 1500; i++ {
 			c = append(c, byte(thrift.BOOL), 0, 0, 0, 0)
 		}
@@ -188,7 +188,7 @@ func genC19Deep(r *rng, n int) {
 		}
 		sort.Slice(ks, func(a, b int) bool { return ks[a] < ks[b] })
 		b := []byte{byte(kt), byte(thrift.I64)}
-		b = append(b, be32(len(ks))...)
+		b = append(b, c19be32(len(ks))...)
 		for _, k := range ks {
 			switch kt {
 			case thrift.I08:
@@ -196,7 +196,7 @@ func genC19Deep(r *rng, n int) {
 			case thrift.I16:
 				b = append(b, byte(k>>8), byte(k))
 			case thrift.I32:
-				b = append(b, be32(int(int32(k)))...)
+				b = append(b, c19be32(int(int32(k)))...)
 			default:
 				b = binary.BigEndian.AppendUint64(b, uint64(k))
 			}
